@@ -55,6 +55,17 @@ import (
 //           none) and one sharing the Weights slice with other Xs, queried
 //           in turn with the owner; run on the worker pool and once more on
 //           a single goroutine.
+//   M-size  the statement is about any non-empty sample: the same judges
+//           (M-ref, M-law, M-hist incl. the partial histories, M-guard) on
+//           samples of 201 .. 70 000 (thorough 300 000) values, weighted
+//           201 .. 20 000 (70 000): sizes at round numbers (powers of two
+//           256..2^18, 500, 1000, 2000, 5000, ..., 200 000) at +0, +1, -1 and
+//           up to 32 above, and log-uniform in between. Every such case is a
+//           history: queried, the same backing arrays refilled in place,
+//           queried again, one alternation round; on the worker pool and once
+//           more on a single goroutine (largest round sizes first). The
+//           references cost O(1) big operations per q (unweighted) and O(n)
+//           rational additions per data set (weighted), so nothing is relaxed.
 //   M-near  unweighted: every break point is also approached on a ladder
 //           b +- 2^k ulp, k = 0..35 (same tolerance: the interpolant is
 //           continuous, a result that is flat near a break point is off by
@@ -442,6 +453,7 @@ func c10JudgeUnweighted(w *mon.W, c c10Case) {
 	w.HitIf(n == 1, "n=1")
 	w.HitIf(n == 2, "n=2")
 	w.HitIf(n >= 150, "n>=150")
+	c10HitLarge(w, n, "")
 	w.HitIf(repeats, "repeats")
 	w.HitIf(d.min == d.max && n > 1, "all-equal")
 	w.HitIf(!sort.Float64sAreSorted(xs), "unsorted-input")
@@ -462,6 +474,8 @@ func c10JudgeUnweighted(w *mon.W, c c10Case) {
 		d2 := c10NewUData(mon.Un(c.Xs2), c.PermSeed^0x9e3779b97f4a7c15)
 		whole := func(...float64) c10Case { return c }
 		w.Hit("buffer-reuse(in-place overwrite)")
+		w.HitIf(n > 1000, "large-buffer-reuse(n>1000)")
+		w.HitIf(n >= 4096, "large-buffer-reuse(n>=4096)")
 		for _, g := range pres {
 			g.load(d2.arr(g.ak), nil)
 		}
@@ -832,6 +846,7 @@ func c10JudgeWeighted(w *mon.W, c c10Case) {
 	w.HitIf(d.intW, "weighted-integer")
 	w.HitIf(!d.intW, "weighted-real")
 	w.HitIf(n == 1, "weighted-n=1")
+	c10HitLarge(w, n, "weighted-")
 	w.HitIf(!sort.Float64sAreSorted(xs), "weighted-unsorted-input")
 	w.HitIf(c.WExp <= -40, "weights-scaled-down(2^-40|2^-200)")
 	w.HitIf(c.WExp >= 40, "weights-scaled-up(2^40|2^200)")
@@ -846,6 +861,8 @@ func c10JudgeWeighted(w *mon.W, c c10Case) {
 	c10WPhase(w, d, c10SortedQs(c.Qs), pres, subA, "")
 
 	if c.Part != 0 && len(c.Xs2) == n && len(c.Ws2) == n {
+		w.HitIf(n > 1000, "large-partial-history(n>1000)")
+		w.HitIf(n >= 4096, "large-partial-history(n>=4096)")
 		c10WPartial(w, c, d, pres)
 		return
 	}
@@ -855,6 +872,8 @@ func c10JudgeWeighted(w *mon.W, c c10Case) {
 		if d2 != nil {
 			whole := func(...float64) c10Case { return c }
 			w.Hit("buffer-reuse-weighted(in-place overwrite)")
+			w.HitIf(n > 1000, "large-buffer-reuse-weighted(n>1000)")
+			w.HitIf(n >= 4096, "large-buffer-reuse-weighted(n>=4096)")
 			for _, g := range pres {
 				g.load(d2.arr(g.ak))
 			}
@@ -1194,6 +1213,56 @@ func c10N(rng *mon.Rand, i int) int {
 	}
 }
 
+// c10Round are the sizes at which an implementation plausibly switches
+// algorithm, block or counter width.
+var c10Round = []int{256, 500, 512, 1000, 1024, 2000, 2048, 4096, 5000, 8192, 10000, 16384, 20000, 32768, 50000, 65536, 100000, 131072, 200000, 262144}
+
+// c10BigN picks a size beyond the small-sample workload, up to max: on even
+// indices the round numbers <= max in turn (ascending, or descending from the
+// largest), first at the number itself, then at +1, then at -1, then up to 32
+// above; otherwise log-uniform in 201..max. turn alternates along every one
+// of those sequences (a caller with two kinds of case gives each size both).
+func c10BigN(rng *mon.Rand, i, max int, desc bool) (n, turn int) {
+	if i%2 == 0 {
+		k := 0
+		for k < len(c10Round) && c10Round[k] <= max {
+			k++
+		}
+		at, cyc := (i/2)%k, (i/2)/k
+		turn = at + cyc
+		if desc {
+			at = k - 1 - at
+		}
+		n = c10Round[at]
+		switch cyc {
+		case 0:
+		case 1:
+			n++
+		case 2:
+			n--
+		default:
+			n += 1 + rng.Intn(32)
+		}
+		return n, turn
+	}
+	return int(rng.LogUniform(201, float64(max)+1)), i / 2
+}
+
+// c10HitLarge records the size classes beyond the statement's small-sample
+// examples (the statement is about any non-empty sample).
+func c10HitLarge(w *mon.W, n int, pre string) {
+	w.HitIf(n > 200 && n <= 1000, pre+"large-n(201..1000)")
+	w.HitIf(n > 1000 && n < 4096, pre+"large-n(1001..4095)")
+	w.HitIf(n >= 4096 && n < 16384, pre+"large-n(4096..16383)")
+	w.HitIf(n >= 16384, pre+"large-n(>=16384)")
+	w.HitIf(n > 65536, pre+"large-n(>65536)")
+	for _, r := range c10Round {
+		if n >= r && n <= r+1 {
+			w.Hit(pre + "large-n-at-round-number(+0|+1)")
+		}
+	}
+}
+
 func c10Near(rng *mon.Rand, q float64) float64 {
 	switch rng.Intn(3) {
 	case 0:
@@ -1299,7 +1368,7 @@ func c10ShortQs(rng *mon.Rand, n int) []float64 {
 }
 
 func c10Run(r *mon.Run) {
-	r.Rule("random: samples of n=1..200 (sizes 1,2,3 / 5,21,85 / 198..200 forced on fixed index residues) from 13 value families (repeats, all-equal, two-valued, offsets 1e3..1e12, magnitudes 1e-300..1e300, subnormal, +-1e307, same-sign 1e307..MaxFloat64, pre-sorted, descending) x 44 q (0, 1, quartiles, +-1ulp around 0 and 1, q<0, q>1, nearest float to break points (3j-1)/(3n+1) and its neighbours incl. both clamp boundaries, 6 points 2^k ulp (k=0..35) beside break points, inside both clamp regions, uniform); every q on 7 presentations (given order, second permutation, sorted with Sorted=true, sorted with Sorted=false; library Copy(), library Copy()+Sort(), hand-built sample after its own Sort()) + IQR on each. breaks: every n=1..200 x every break point j=1..n x {nearest float, +-1ulp} and for a quarter of them one point 2^k ulp away. exhaustive: all sequences over a 3 (thorough 4) letter alphabet up to length 5 (thorough 7), i.e. all permutations of all such multisets. weighted: n=1..200, integer/unit/real/dyadic/dominant weights, values with and without ties, q at cumulative-weight fractions and +-1 ulp, 1e-9 beside them, 2 rel 2^k (from 2 rel to 1e-6; rel = 4 eps on weights with exact sums, else 4 n eps) beside them, 2^k ulp (k=0..35) beside them on weights with exact sums, and uniform; a third of the weight vectors times 2^+-40 or 2^+-200. reuse / reuse-weighted: 12 q on 7 presentations, then the same 7 backing arrays overwritten in place with another sample of the same length (other weights and scale) and 12 q again, then the two samples alternating twice through each buffer (3 q + IQR directly after each overwrite). partial / partial-serial (weighted, 3 of the presentations): Weights array alone overwritten, second Sample values sharing the Xs slice (other Weights; none), Xs array alone overwritten, second Sample value sharing the Weights slice; owner and sharer queried in turn. empty: 8 variants x 11 q. Non-trivial = hits a class; distinct by hash of (xs,ws,qs).")
+	r.Rule("random: samples of n=1..200 (sizes 1,2,3 / 5,21,85 / 198..200 forced on fixed index residues) from 13 value families (repeats, all-equal, two-valued, offsets 1e3..1e12, magnitudes 1e-300..1e300, subnormal, +-1e307, same-sign 1e307..MaxFloat64, pre-sorted, descending) x 44 q (0, 1, quartiles, +-1ulp around 0 and 1, q<0, q>1, nearest float to break points (3j-1)/(3n+1) and its neighbours incl. both clamp boundaries, 6 points 2^k ulp (k=0..35) beside break points, inside both clamp regions, uniform); every q on 7 presentations (given order, second permutation, sorted with Sorted=true, sorted with Sorted=false; library Copy(), library Copy()+Sort(), hand-built sample after its own Sort()) + IQR on each. breaks: every n=1..200 x every break point j=1..n x {nearest float, +-1ulp} and for a quarter of them one point 2^k ulp away. exhaustive: all sequences over a 3 (thorough 4) letter alphabet up to length 5 (thorough 7), i.e. all permutations of all such multisets. weighted: n=1..200, integer/unit/real/dyadic/dominant weights, values with and without ties, q at cumulative-weight fractions and +-1 ulp, 1e-9 beside them, 2 rel 2^k (from 2 rel to 1e-6; rel = 4 eps on weights with exact sums, else 4 n eps) beside them, 2^k ulp (k=0..35) beside them on weights with exact sums, and uniform; a third of the weight vectors times 2^+-40 or 2^+-200. reuse / reuse-weighted: 12 q on 7 presentations, then the same 7 backing arrays overwritten in place with another sample of the same length (other weights and scale) and 12 q again, then the two samples alternating twice through each buffer (3 q + IQR directly after each overwrite). partial / partial-serial (weighted, 3 of the presentations): Weights array alone overwritten, second Sample values sharing the Xs slice (other Weights; none), Xs array alone overwritten, second Sample value sharing the Weights slice; owner and sharer queried in turn. large / large-serial: the reuse history (12 q on 7 presentations, same 7 backing arrays refilled in place, 12 q, one alternation round) on n=201..70000 (thorough 300000; serial 10000 / 40000): even indices the round numbers 256,500,512,1000,1024,2000,2048,4096,5000,8192,10000,16384,20000,32768,50000,65536,100000,131072,200000,262144 up to the maximum in turn (serial: descending) at +0, then +1, then -1, then 1..32 above, odd indices log-uniform; 13 value families in turn. large-weighted / large-weighted-serial: the same on n=201..20000 (thorough 70000; serial 5000 / 20000) with 6 weight families, q also at and 2 rel 2^k beside cumulative-weight fractions, half of the cases as partial histories (Weights alone / Xs alone refilled, shared slices). empty: 8 variants x 11 q. Non-trivial = hits a class; distinct by hash of (xs,ws,qs).")
 	r.Assume("sample values finite with |x|<=1e307, or all of one sign up to MaxFloat64 (gaps between order statistics do not overflow); weights positive and finite; NaN/Inf q, NaN data, negative or zero weights, len(Weights)!=len(Xs) and Sorted=true on unsorted data are outside the statement",
 		"unweighted tolerance 16 eps ((h+1) G + M) + 4e-323: G largest gap of the segment and its neighbours, M largest magnitude of the order statistics involved; containment in [min,max] and in the bracketing order statistics (h +- 16 eps (h+1)) is exact",
 		"weighted ambiguity window around every cumulative weight (both neighbouring values accepted): 4 n eps W (4x the first-order rounding bound of W, q W and n partial sums or subtractions in any order); 4 eps W when all weights lie on one binary grid with W <= 2^53 steps (no sum rounds); none when moreover q W, 1-q and (1-q) W are exactly representable")
@@ -1310,6 +1379,9 @@ func c10Run(r *mon.Run) {
 		"weights-scaled-down(2^-40|2^-200)", "weights-scaled-up(2^40|2^200)", "weighted-IQR-exact-tie-judged-strictly",
 		"weighted-exact-tie-judged-strictly", "q-at-break(+-1ulp)", "h-exact-integer", "q<0", "q>1", "q=0|1", "n=1", "n=2", "n>=150", "clamp-low(h<1)", "clamp-high(h>=n)",
 		"repeats", "all-equal", "unsorted-input", "empty",
+		"large-n(201..1000)", "large-n(1001..4095)", "large-n(4096..16383)", "large-n(>=16384)", "large-n(>65536)", "large-n-at-round-number(+0|+1)",
+		"weighted-large-n(201..1000)", "weighted-large-n(1001..4095)", "weighted-large-n(4096..16383)", "weighted-large-n(>=16384)", "weighted-large-n-at-round-number(+0|+1)",
+		"large-buffer-reuse(n>1000)", "large-buffer-reuse(n>=4096)", "large-buffer-reuse-weighted(n>1000)", "large-buffer-reuse-weighted(n>=4096)", "large-partial-history(n>1000)", "large-partial-history(n>=4096)",
 		"weighted-ties", "weighted-integer", "weighted-real", "weighted-q<0", "weighted-q>1", "weighted-unsorted-input", "weighted-ambiguous", "weighted-unambiguous")
 	if err := ref.C10SelfTest(); err != nil {
 		r.Inconclusive("reference self-test failed: " + err.Error())
@@ -1457,6 +1529,58 @@ func c10Run(r *mon.Run) {
 	}
 	r.Parallel("partial", r.Pick(450, 6000), partial)
 	r.Serial("partial-serial", r.Pick(150, 1500), partial)
+
+	// large samples: every judge above, on sizes beyond 200. All of them are
+	// histories (the plain phase comes first): 12 q on the 7 presentations,
+	// the same buffers refilled in place, 12 q again, one alternation round.
+	largeU := func(max int, desc bool) func(w *mon.W, i int) {
+		return func(w *mon.W, i int) {
+			rng := w.Rng
+			n, _ := c10BigN(rng, i, max, desc)
+			f1 := []int{1, 0, 2, 8, 3, 12, 5, 11, 7, 9, 10, 6, 4}[(i/2)%13]
+			f2 := f1
+			if rng.Bool() {
+				f2 = rng.Intn(c10Families)
+			}
+			xs, xs2 := c10Values(rng, n, f1), c10Values(rng, n, f2)
+			c10Judge(w, c10Case{Xs: mon.Fs(xs), Qs: mon.Fs(c10ShortQs(rng, n)), Xs2: mon.Fs(xs2), Qs2: mon.Fs(c10ShortQs(rng, n)), Alt: 1, PermSeed: rng.Uint64()})
+		}
+	}
+	largeW := func(max int, desc bool) func(w *mon.W, i int) {
+		return func(w *mon.W, i int) {
+			rng := w.Rng
+			n, turn := c10BigN(rng, i, max, desc)
+			fams := []int{1, 0, 8, 2, 5, 3, 7, 11, 12}
+			xs, xs2 := c10Values(rng, n, fams[(i/2)%len(fams)]), c10Values(rng, n, fams[rng.Intn(len(fams))])
+			ws, ws2 := c10Weights(rng, n, i/3), c10Weights(rng, n, rng.Intn(6))
+			qs, qs2 := c10ShortQs(rng, n), c10ShortQs(rng, n)[:8]
+			// the cumulative-weight fractions of both weightings a phase can see
+			for t, wv := range [][]float64{ws, ws2} {
+				wq := ref.NewWQ(xs, wv)
+				rel := c10WBaseRel(wq, n)
+				for k := 0; k < 2; k++ {
+					f := wq.CumQ(rng.Intn(len(wq.Vals)))
+					if t == 0 {
+						qs = append(qs, c10Near(rng, f), c10WRung(rng, f, rel))
+					} else {
+						qs2 = append(qs2, c10Near(rng, f), c10WRung(rng, f, rel))
+					}
+				}
+			}
+			c := c10Case{Xs: mon.Fs(xs), Ws: mon.Fs(ws), WExp: c10WExp(rng), Weighted: true, Qs: mon.Fs(qs),
+				Xs2: mon.Fs(xs2), Ws2: mon.Fs(ws2), WExp2: c10WExp(rng), Qs2: mon.Fs(qs2), Alt: 1, PermSeed: rng.Uint64()}
+			if turn%2 == 1 { // every round size is a plain history in one cycle and a partial one in the next
+				c.Part = 1
+			}
+			c10Judge(w, c)
+		}
+	}
+	r.Parallel("large", r.Pick(64, 600), largeU(r.Pick(70000, 300000), false))
+	r.Parallel("large-weighted", r.Pick(48, 400), largeW(r.Pick(20000, 70000), false))
+	// once more on a single goroutine: between the last query before a refill
+	// and the first one after it nothing else calls the library
+	r.Serial("large-serial", r.Pick(10, 60), largeU(r.Pick(10000, 40000), true))
+	r.Serial("large-weighted-serial", r.Pick(8, 48), largeW(r.Pick(5000, 20000), true))
 
 	// empty samples
 	r.Exhaustive("empty sample: Xs nil/empty x Weights nil/empty x Sorted, 11 q")
